@@ -234,6 +234,13 @@ try:
         report("edit", "-", OP)
         if OP == "reset":
             settings.reset()
+        elif OP == "resetcli":
+            import contextlib
+            import io
+            from evo import main_config
+            sys.argv = ["evo_config", "reset", "-y"]
+            with contextlib.redirect_stdout(io.StringIO()):
+                main_config.main()
         elif OP == "resetsub":
             settings.reset(settings.DEFAULT_PATH, ["plot_linewidth", "plot_usetex"])
         else:
